@@ -104,7 +104,10 @@ class Env:
         self.last_tid = {}
         self.dropped_by_pack = []   # list of sets of (oid, tid)
         self.db = None
+        self.tie_breaks = []         # internal facts the model's atomic steps rely on, found violated
+        self.intruder = None         # (txn, oid) of a transaction slipped in by the finish probe
         self._interpose()
+        self._probe_finish()
 
     # ------------------------------------------------------------------ set-up / tear-down
     def _patch_blobfile(self):
@@ -380,6 +383,62 @@ class Env:
         if self.flavor == 'fs':
             wrap('undo', pre_undo)
         wrap('pack', pre_pack)
+
+    def _probe_finish(self):
+        """The model's `finish` forgets the dirty list atomically with the commit.  On FileStorage that
+        rests on `_blob_tpc_finish` running while the commit lock is held (nobody can have begun the
+        next transaction and appended to the list).  Probe it on every finish; if the lock is free,
+        search for the failing input right away: slip a second transaction's tpc_begin + storeBlob in
+        before the list is reset — the runner then aborts it and the oracle looks at the directory."""
+        if self.flavor != 'fs':
+            return             # the wrapper clears its list after the base storage released the lock (6.2)
+        S, env = self.storage, self
+        orig = S._blob_tpc_finish
+
+        def hooked():
+            lock = getattr(S, '_commit_lock', None)
+            held = lock.locked() if lock is not None and hasattr(lock, 'locked') else True
+            if not held:
+                if 'finish-clears-dirty-list-outside-commit-lock' not in env.tie_breaks:
+                    env.tie_breaks.append('finish-clears-dirty-list-outside-commit-lock')
+                if env.intruder is None:
+                    try:
+                        env._intrude()
+                    except Exception:
+                        pass
+            orig()
+        S._blob_tpc_finish = hooked
+
+    def _intrude(self):
+        from ZODB.Connection import TransactionMetaData
+        from ZODB.blob import Blob
+        from ZODB.serialize import ObjectWriter
+        S = self.storage
+        t2 = TransactionMetaData()
+        self.depth += 1                   # not part of the recorded history
+        try:
+            S.tpc_begin(t2)
+            oid = S.new_oid()
+            tmp = os.path.join(S.temporaryDirectory(), 'intruder%d.tmp' % len(self.lines))
+            with vfs._real_open(tmp, 'wb') as f:
+                f.write(b'intruder')
+            S.storeBlob(oid, b'\0' * 8, ObjectWriter().serialize(Blob()), tmp, '', t2)
+            self.intruder = (t2, oid)
+        finally:
+            self.depth -= 1
+
+    def abort_intruder(self):
+        """abort the slipped-in transaction; returns True if there was one"""
+        if self.intruder is None:
+            return False
+        t2, _ = self.intruder
+        self.intruder = None
+        self.depth += 1
+        try:
+            self.storage.tpc_abort(t2)
+        finally:
+            self.depth -= 1
+        return True
 
     def _cur_tid(self, oid):
         try:
